@@ -1377,6 +1377,10 @@ func (h *H) replay(path string) {
 			return
 		}
 	}
+	if fam, _ := generic["family"].(string); fam == "rsa" {
+		h.replayRSA(generic)
+		return
+	}
 	if fam, _ := generic["family"].(string); fam == "seq" {
 		var sc Case
 		if err := json.Unmarshal(rf.Case, &sc); err == nil {
@@ -1519,10 +1523,14 @@ func main() {
 	}
 	tAsym := time.Since(t0) - tSym
 	if !f.Search {
+		h.rsaInterop()
+	}
+	tRSA := time.Since(t0) - tSym - tAsym
+	if !f.Search {
 		h.compareWithModel()
 	}
 	res.Exhaustive = false
-	res.Note(fmt.Sprintf("wall: symmetric+subpackages %.1fs, asymmetric %.1fs, model comparison %.1fs; %d request lines", tSym.Seconds(), tAsym.Seconds(), (time.Since(t0) - tSym - tAsym).Seconds(), len(h.lines)))
+	res.Note(fmt.Sprintf("wall: symmetric+subpackages %.1fs, asymmetric %.1fs, rsa interop vs Lean %.1fs, model comparison %.1fs; %d request lines", tSym.Seconds(), tAsym.Seconds(), tRSA.Seconds(), (time.Since(t0) - tSym - tAsym - tRSA).Seconds(), len(h.lines)))
 	keys := make([]string, 0)
 	for k := range res.Distribution {
 		keys = append(keys, k)
